@@ -18,6 +18,7 @@ import (
 	"bytes"
 	"fmt"
 	"io"
+	"math"
 	"time"
 
 	"github.com/datastax/go-cassandra-native-protocol/datatype"
@@ -145,12 +146,16 @@ func readDuration(source []byte) (val CqlDuration, wasNull bool, err error) {
 				nanos, rn, err = primitive.ReadVint(reader)
 				if err == nil {
 					read := rm + rd + rn
-					if length == read {
+					if length != read {
+						err = errBytesRemaining(length, length-read)
+					} else if months < math.MinInt32 || months > math.MaxInt32 {
+						err = errValueOutOfRange(months)
+					} else if days < math.MinInt32 || days > math.MaxInt32 {
+						err = errValueOutOfRange(days)
+					} else {
 						val.Months = int32(months)
 						val.Days = int32(days)
 						val.Nanos = time.Duration(nanos)
-					} else {
-						err = errBytesRemaining(length, length-read)
 					}
 				} else {
 					err = fmt.Errorf("cannot read duration nanos: %w", err)
